@@ -117,6 +117,11 @@ class Ed25519Key(PKey):
 
         if ciphername != "none" and ciphername not in Transport._cipher_info:
             raise SSHException("Invalid key")
+        if Transport._cipher_info.get(ciphername, {}).get("is_aead"):
+            # AEAD ciphers have no "mode" and append a tag; not handled below
+            raise SSHException(
+                "unsupported cipher {} in private key file".format(ciphername)
+            )
 
         public_keys = []
         for _ in range(num_keys):
